@@ -255,9 +255,40 @@ func (g *Gen) applyContract(st *State, c *Contract, key string, names []string, 
 	return g.applyContractX(st, c, key, names, args, sig, resTy, pos, inRepo, nil)
 }
 
+// callAsserts emits the obligations the caller's contract attaches to this call site
+// (checked before the call, whether or not the callee has a contract).
+func (g *Gen) callAsserts(st *State, short string, vars map[string]Val, pos token.Pos) {
+	if g.C != nil && len(g.C.CallAsserts) > 0 && !g.quiet {
+		ord := g.preCallOrd[short]
+		g.preCallOrd[short] = ord + 1
+		for _, cl := range g.C.CallAsserts {
+			if cl.CallOrd != ord || !(short == cl.Callee || strings.HasSuffix(short, "."+cl.Callee) || strings.HasSuffix(short, "/"+cl.Callee) || (cl.Callee == "$dyn" && strings.Contains(short, "$callback:"))) {
+				continue
+			}
+			sca := g.specCtxVars(st, g.entry, vars)
+			sca.useParams = true
+			sca.atBlock = g.curBlock
+			t, err := sca.boolTerm(cl.E)
+			if err != nil {
+				g.BindErrs = append(g.BindErrs, fmt.Sprintf("assert %q: %v", cl.Text, err))
+				continue
+			}
+			g.usedCallAssumes[cl] = true
+			g.oblige(st, "assert", "@"+short, cl.Text, pos, t)
+		}
+	}
+}
+
 func (g *Gen) applyContractX(st *State, c *Contract, key string, names []string, args []Val, sig *types.Signature, resTy types.Type, pos token.Pos, inRepo bool, extra map[string]Val) Val {
 	short := ShortKey(key)
 	if c == nil {
+		v0 := map[string]Val{}
+		for i, n := range names {
+			if i < len(args) {
+				v0[n] = args[i]
+			}
+		}
+		g.callAsserts(st, short, v0, pos)
 		if strings.HasPrefix(key, ModPath) {
 			g.Abstracted["call to "+short+" (no contract): heap havocked, result unconstrained"] = true
 		} else {
@@ -293,26 +324,7 @@ func (g *Gen) applyContractX(st *State, c *Contract, key string, names []string,
 	}
 	sc := g.specCtxVars(st, st, vars)
 	sc.calleeKey = key
-	// assertions the caller's contract attaches to this call site (checked before the call)
-	if g.C != nil && len(g.C.CallAsserts) > 0 && !g.quiet {
-		ord := g.preCallOrd[short]
-		g.preCallOrd[short] = ord + 1
-		for _, cl := range g.C.CallAsserts {
-			if cl.CallOrd != ord || !(short == cl.Callee || strings.HasSuffix(short, "."+cl.Callee) || strings.HasSuffix(short, "/"+cl.Callee) || (cl.Callee == "$dyn" && strings.Contains(short, "$callback:"))) {
-				continue
-			}
-			sca := g.specCtxVars(st, g.entry, vars)
-			sca.useParams = true
-			sca.atBlock = g.curBlock
-			t, err := sca.boolTerm(cl.E)
-			if err != nil {
-				g.BindErrs = append(g.BindErrs, fmt.Sprintf("assert %q: %v", cl.Text, err))
-				continue
-			}
-			g.usedCallAssumes[cl] = true
-			g.oblige(st, "assert", "@"+short, cl.Text, pos, t)
-		}
-	}
+	g.callAsserts(st, short, vars, pos)
 	var ghostReq Expr // conjunction of the requires that mention ghost parameters
 	ghostNames := map[string]bool{}
 	for _, q := range c.Ghosts {
